@@ -37,6 +37,10 @@ def r6_restore(ctx):
     r6_fitter_restores(ctx)
 
 
+def r7_dont_care_agreement(ctx):
+    fitclauses.clause_upper_bound_agreement(ctx, "setitem")
+
+
 RULES = [
     ("C05-R1", "absolute range mask: closed interval on the unscaled "
      "abscissa within a copy of the segment mask",
@@ -52,4 +56,6 @@ RULES = [
     ("C05-R5", "range/scan settings invalidate cached results",
      r5_invalidation),
     ("C05-R6", "scratch range restored between passes", r6_restore),
+    ("C05-R7", "the range don't-care keys on the bound the fit uses",
+     r7_dont_care_agreement),
 ]
